@@ -206,6 +206,7 @@ func (g *c07Gen) walk(src *mgen.Type, vecN int, vecSc bool, constOnly bool, maxL
 			if vs {
 				vt = fmt.Sprintf("<vscale x %d x %s>", vn, it)
 			}
+			plainVt := vt
 			aliased := ""
 			if rng.Intn(4) == 0 {
 				// the index type written through a type alias (defined in the module prelude)
@@ -218,6 +219,10 @@ func (g *c07Gen) walk(src *mgen.Type, vecN int, vecSc bool, constOnly bool, maxL
 				}
 			}(len(forms))
 			switch {
+			case form == 7 && it != "i1" && rng.Intn(3) == 0:
+				// a constant expression of vector type (its shape is in its type only)
+				idx = append(idx, fmt.Sprintf("%s add (%s zeroinitializer, %s zeroinitializer)", vt, plainVt, plainVt))
+				forms = append(forms, "vector-constant-expression")
 			case form == 7:
 				idx = append(idx, vt+" zeroinitializer")
 				forms = append(forms, "vector-zeroinitializer")
